@@ -50,7 +50,10 @@ def vocab_of(projs):
             v['objs'].add(tuple(o))
             if o[0]:
                 v['types'].add(o[0])
-    return {k: sorted(x, key=str) for k, x in v.items()}
+    res = {k: sorted(x, key=str) for k, x in v.items()}
+    # whole messages too: patterns "one edit away from a message of the universe" are built from them
+    res['msgs'] = [m for m in projs if m['args']][:400]
+    return res
 
 
 class Gen:
@@ -159,6 +162,10 @@ class Gen:
             f = self.rng.choice(v['floats'])
             if self.rng.random() < 0.2:
                 f += 0.5
+            elif self.rng.random() < 0.25:
+                # the value as somebody would type it from the display: cut to one or two decimals (another number, unless the
+                # value happens to have no more decimals than that)
+                f = float(('%.2f' if self.rng.random() < 0.7 else '%.1f') % f)
             t = repr(float(f))
             if 'e' in t or 'inf' in t or 'nan' in t:
                 t = '1.5'
@@ -204,11 +211,86 @@ class Gen:
         nneg = 0 if self.rng.random() < 0.65 else self.rng.choice([1, 2])
         if npos == 0 and nneg == 0:
             npos = 1
-        return {'pos': [self.item() for _ in range(npos)], 'neg': [self.item() for _ in range(nneg)]}
+        res = {'pos': [self.item() for _ in range(npos)], 'neg': [self.item() for _ in range(nneg)]}
+        if self.rng.random() < 0.12:
+            # two items of one list that print alike and mean different things: "5" and 5, "wl_seat" and wl_seat
+            side = self.rng.choice(['pos', 'pos', 'neg'])
+            cands = [it for it in res[side] if 'pos' not in it and it.get('value') is not None]
+            if cands:
+                t = self.twin({'args': {'pos': [self.rng.choice(cands)], 'neg': []}})
+                if t is not None:
+                    res[side].insert(self.rng.randrange(len(res[side]) + 1), t['args']['pos'][0])
+        return res
 
     # ------------------------------------------------------------ patterns
+    def near_value(self, a):
+        """the value of a real argument, or one keystroke / one rounding away from it"""
+        rng = self.rng
+        k = a['kind']
+        exact = rng.random() < 0.45
+        if k == 'int':
+            labs = [l for l in (a['labels'] or []) if ok_word(l)]       # (`(none)`, `INVALID ENUM VALUE`, `90` cannot be written as a word)
+            if labs and rng.random() < 0.4:
+                return {'word': rng.choice(labs) if exact else self.word(labs, 'zz_label')}
+            return {'int': a['value'] if exact else a['value'] + rng.choice([1, -1, 10, -a['value'] * 2 if a['value'] else 1])}
+        if k == 'float':
+            f = a['value']
+            if not exact:
+                f = rng.choice([float('%.2f' % f), float('%.1f' % f), float(int(f)), f + 1 / 256.0, f - 1 / 256.0, -f, round(f, 3)])
+            t = repr(float(f))
+            return {'float': t} if 'e' not in t and 'n' not in t else None
+        if k == 'str':
+            sv = a['value']
+            if '"' in sv or '\x1b' in sv or '\\' in sv:
+                return None
+            if not exact:
+                sv = rng.choice([sv + ' ', sv[:-1], sv + 'x', sv.lower(), sv.upper(), ' ' + sv]) if sv else 'x'
+            return {'str': sv}
+        if k == 'nil':
+            return {'nil': True} if exact or not a['nil_type'] else {'word': a['nil_type']}
+        if k in ('obj', 'new') and a['obj'] and a['obj'][1]:
+            o = a['obj']
+            if rng.random() < 0.35 and o[0] and ok_word(o[0]):
+                return {'word': o[0] if exact else self.word([o[0]])}
+            return {'oid': o[1], 'gen': rng.choice([None, o[2], o[2]]) if exact else o[2] + 1}
+        return None
+
+    def from_message(self):
+        """a pattern built from one message of the universe: its type / id / name and one or two of its arguments, each
+        exact or one edit away (so that value-level slips meet the messages they matter for)"""
+        rng = self.rng
+        m = rng.choice(self.v['msgs'])
+        p = {'conn': None, 'obj': None, 'name': None, 'args': None, 'bare': False}
+        if rng.random() < 0.25:
+            p['conn'] = {'w': m['conn']}
+        r = rng.random()
+        if r < 0.35 and m['target'][0] and ok_word(m['target'][0]):
+            p['obj'] = {'type': m['target'][0]}
+        elif r < 0.55:
+            p['obj'] = {'id': m['target'][1], 'gen': rng.choice([None, m['target'][2]]), 'at': False}
+        if rng.random() < 0.6 and ok_word(m['name']):
+            p['name'] = {'w': m['name']}
+        items = []
+        for a in rng.sample(m['args'], min(len(m['args']), rng.choice([1, 1, 2]))):
+            v = self.near_value(a)
+            if v is None:
+                continue
+            nm = {'w': a['name']} if a['name'] and ok_word(a['name']) and rng.random() < 0.5 else None
+            items.append({'name': nm, 'value': v})
+        if not items:
+            return None
+        neg = rng.random() < 0.15
+        p['args'] = {'pos': [] if neg else items, 'neg': items if neg else []}
+        if neg and not p['args']['pos'] and rng.random() < 0.5:
+            p['args']['pos'] = [{'name': None, 'value': {'word': '*'}}] if self.allow_never else []
+        return p
+
     def pattern(self):
         rng = self.rng
+        if self.v.get('msgs') and rng.random() < 0.22:
+            q = self.from_message()
+            if q is not None:
+                return q
         p = {'conn': None, 'obj': None, 'name': None, 'args': None, 'bare': False}
         if rng.random() < 0.3:
             p['conn'] = self.wl(self.v['conns'], 1, allow_star=True)
